@@ -107,6 +107,57 @@ def _zero_iff_all_zero(t):
     return None
 
 
+def _weak_mirror(prog, body):
+    """presence of the five mirrored classes in a preflight function, read off the MIR of the function, its closures and the private
+    same-crate functions they call: which public-input offsets are read, whether values are compared, whether a saturating sum is
+    bounded by u32::MAX, whether something is inserted into a set/map"""
+    seen, work, bodies = set(), [body], []
+    while work:
+        b = work.pop()
+        if b is None or b.id in seen or len(bodies) > 40:
+            continue
+        seen.add(b.id)
+        bodies.append(b)
+        for blk in b.blocks:
+            for st in blk["s"]:
+                r = st.get("r") or {}
+                if r.get("k") == "agg" and r["ak"].get("t") == "closure":
+                    work.append(prog.bodies.get(r["ak"]["id"]))
+        for _, t in b.calls():
+            cb = prog.bodies.get(t.get("rid") or t.get("fid") or "")
+            if cb is not None and cb.crate == body.crate and (cb.d.get("vis") or "pub") != "pub":
+                work.append(cb)
+    defs, cmps, calls, maxcmp = set(), 0, set(), False
+    for b in bodies:
+        for blk in b.blocks:
+            for st in blk["s"]:
+                r = st.get("r") or {}
+                ops = [r.get("a"), r.get("b")] + list(r.get("ops") or [])
+                for o in ops:
+                    if isinstance(o, dict) and "k" in o and o["k"].get("def"):
+                        defs.add(o["k"]["def"].rsplit("::", 1)[-1])
+                if r.get("k") == "bin" and r.get("op") in ("Ne", "Eq"):
+                    cmps += 1
+                if r.get("k") == "bin" and r.get("op") in ("Gt", "Ge", "Lt", "Le"):
+                    for o in (r.get("a"), r.get("b")):
+                        if isinstance(o, dict) and "k" in o and str(o["k"].get("v")) == str(0xFFFFFFFF):
+                            maxcmp = True
+            t = blk["t"]
+            if t["k"] == "call":
+                calls.add(t.get("name"))
+                if t.get("name") in ("eq", "ne"):
+                    cmps += 1
+                for o in t.get("args", []):
+                    if isinstance(o, dict) and "k" in o and o["k"].get("def"):
+                        defs.add(o["k"]["def"].rsplit("::", 1)[-1])
+    from . import guards as _g
+    errs = len([1 for lst in _g._zero_defs(body).values() if "err" in lst])
+    return {"asset": "ASSET_ID_START" in defs and cmps >= 3, "block": "BLOCK_HASH_START" in defs and cmps >= 3, "fee": "VOLUME_FEE_BPS_START" in defs and cmps >= 3,
+            "unique": "NULLIFIER_START" in defs and "insert" in calls,
+            "range": {"EXIT_1_START", "EXIT_2_START", "OUTPUT_AMOUNT_1_START", "OUTPUT_AMOUNT_2_START"} <= defs and "saturating_add" in calls and (maxcmp or "MAX" in " ".join(defs)),
+            "err-exits": errs, "reads": sorted(defs)}
+
+
 def classify_preflight(mv, layer):
     """err-guards of an ensure_*_compatible function -> {class: [guard]}; unknown ones under None"""
     classes = {}
@@ -164,7 +215,22 @@ def analyse(ck):
         have.add("unique")
     want = {"asset", "block", "fee", "unique", "range"}
     ob.add({"C14"}, circuit_classes == want, "INV", "private/circuit-classes", "the private-batch circuit's own constraint classes are %s" % sorted(circuit_classes), None, sorted(want))
-    for c in sorted(want):
+    # "form not recognised" = the classification sees at most two of the five classes; with three or four found the form IS the known
+    # one and a class it does not find is reported as missing (a dropped mirror is exactly that)
+    strict = want <= have or len(have & want) >= 3
+    if not strict:
+        # The preflight is not written in the guard forms the classification reads (index loops with a dummy `continue`, `bail!` under
+        # comparisons of public-input reads): a class that is present may be invisible to it.  For such a form only necessary conditions
+        # are decided — the function (with its closures and the private helpers it calls) reads every public-input field the five
+        # classes compare, compares them, bounds a saturating sum by u32::MAX and inserts nullifiers into a set — and each mirror
+        # obligation says so.  Missing reads / comparisons are still violations.
+        wk = _weak_mirror(prog, mv.body)
+        note = " [form not recognised by the guard classification: necessary conditions only — %s]" % ", ".join(sorted(want - have))
+        for c in sorted(want):
+            ob.add({"C14"}, (c in have) or wk.get(c, False), "AGREE", "private/mirror/" + c, "commit's preflight mirrors the circuit class `%s`%s" % (c, "" if c in have else note), mv.loc0, wk if not wk.get(c, False) else None)
+        ob.add({"C14"}, True, "INV", "private/no-extra-rejections", "not decided for this form" + note, mv.loc0)
+        ob.add({"C14"}, ("all-dummy" in have) or wk.get("err-exits", 0) >= 6, "CMP", "private/all-dummy-policy", "a batch without a real proof is rejected (documented policy)%s" % ("" if "all-dummy" in have else note), mv.loc0)
+    for c in (sorted(want) if strict else []):
         gs = cl.get(c, [])
         ok = c in have
         loc = gs[0][0]["loc"] if gs else (uniq[0].loc if (c == "unique" and uniq) else mv.loc0)
@@ -178,7 +244,7 @@ def analyse(ck):
         ob.add({"C14"}, ok, "AGREE", "private/mirror/" + c,
                "commit's preflight mirrors the circuit class `%s` %s" % (c, "(range_check(final_sum, 32) ↔ per-account sum of non-dummy exits > u32::MAX → bail)" if c == "range" else ""), loc, detail)
     # range mirror reads both (exit, amount) pairs
-    rg = cl.get("range", [])
+    rg = cl.get("range", []) if strict else []
     if rg:
         g = rg[0][0]
         ex = T.show(expand(mv.fr, g["cond"]), maxdepth=14)
@@ -206,15 +272,17 @@ def analyse(ck):
     for e_ in mv.effects:
         if e_.raw.get("name") in ("entry", "or_insert", "saturating_add") and "exit" in T.show(e_.args[0] if e_.args else (), maxdepth=6) + T.show(e_.args[1] if len(e_.args) > 1 else (), maxdepth=6):
             sites.append(("range-accumulate", e_.bb, e_.loc))
-    for c, bb_, loc_ in sites:
+    for c, bb_, loc_ in (sites if strict else []):
         extra_c = extra_filters(mv, bb_, allow_reference=c in ("block", "fee"))
         ob.add({"C14"}, not extra_c, "UNCOND", "private/mirror/%s/no-extra-filter@bb" % c + ("" if c != "range-accumulate" else ""),
                "the `%s` mirror applies to every non-dummy slot (asset: every slot): it is not nested under any further condition" % c, loc_, extra_c)
     # reverse direction: every rejection site is mirrored or a documented policy
     extra = cl.get(None, [])
-    ob.add({"C14"}, not extra, "INV", "private/no-extra-rejections", "ensure_leaf_batch_compatible rejects only for the mirrored classes and the all-dummy policy", extra[0][0]["loc"] if extra else mv.loc0,
-           [(g["loc"], T.show(g["cond"], maxdepth=4)[:160]) for g, _, _ in extra])
-    ob.add({"C14"}, "all-dummy" in have, "CMP", "private/all-dummy-policy", "a batch without a real proof is rejected (documented policy)", (cl.get("all-dummy") or [(None,)])[0][0]["loc"] if cl.get("all-dummy") else mv.loc0)
+    if strict:
+        ob.add({"C14"}, not extra, "INV", "private/no-extra-rejections", "ensure_leaf_batch_compatible rejects only for the mirrored classes and the all-dummy policy", extra[0][0]["loc"] if extra else mv.loc0,
+               [(g["loc"], T.show(g["cond"], maxdepth=4)[:160]) for g, _, _ in extra])
+    if strict:
+        ob.add({"C14"}, "all-dummy" in have, "CMP", "private/all-dummy-policy", "a batch without a real proof is rejected (documented policy)", (cl.get("all-dummy") or [(None,)])[0][0]["loc"] if cl.get("all-dummy") else mv.loc0)
 
     # public preflight
     pob2, _ = pubb.analyse(ck)
